@@ -41,7 +41,8 @@ TRUSTED = ["theories/Wire/RecvModel.v is a hand transcription of message_receive
            "(checked against the code on every run through the user datagrams the victim sends and the panic sites)",
            "the initial model state of a case is MEASURED from the user traffic of the set-up phase (last HEARTBEAT / "
            "ACKNACK per endpoint pair, samples delivered) by props/C06.py",
-           "memory of the real code is what its global allocator is asked for (counting allocator in the harness); "
+           "memory of the real code is what its global allocator is asked for (counting allocator in the harness: total, "
+           "peak of live bytes and the largest single request while one datagram is handled); "
            "HANG is a 5 s (quick) / 20 s (thorough) wall-clock watchdog per datagram"]
 ASSUMPTIONS = ["debug profile (overflow checks on)",
                "the theorems cover the RTPS message receiver and the stateful reader / writer handlers; DCPS processing of accepted "
@@ -50,7 +51,8 @@ ASSUMPTIONS = ["debug profile (overflow checks on)",
                "the invariant bounds the bytes of buffered fragments per writer proxy by 2^31 (nothing in the code bounds the "
                "fragment buffer of a matched writer)"]
 
-BIN = os.path.join(core.CACHE, "target", "debug", "c06")
+# the harness binary the driver built (a scratch copy of the repository is built apart, see vlib.core.cargo_build)
+BIN = os.path.join(core.CACHE, "target" if os.path.realpath(core.REPO) == "/repo" else "target_alt", "debug", "c06")
 LIM_MS = {"quick": 5000, "search": 5000, "thorough": 20000}
 
 # ------------------------------------------------------------------------------- decoding
@@ -258,10 +260,11 @@ def parse_out(out):
         if not t:
             continue
         if t[0].startswith("D") and t[0][1:].isdigit():
-            if len(t) >= 6 and t[1] == "OK":
-                sent = [] if t[5] == "-" else [bytes.fromhex(x) for x in t[5].split(",")]
-                obs.append(("ok", int(t[3]), sent, int(t[2]), int(t[4])))
-                rest = t[6:]
+            if len(t) >= 7 and t[1] == "OK":
+                sent = [] if t[6] == "-" else [bytes.fromhex(x) for x in t[6].split(",")]
+                # ("ok", peak, sent, total, micros, largest single request)
+                obs.append(("ok", int(t[3]), sent, int(t[2]), int(t[5]), int(t[4])))
+                rest = t[7:]
             else:
                 rest = t[1:]
             if rest:
@@ -317,7 +320,7 @@ def case_term(c, out):
     ot = []
     for o in obs:
         if o[0] == "ok":
-            ot.append("OOk %d [%s]" % (o[1], "; ".join(cl(x) for x in o[2])))
+            ot.append("OOk %d %d [%s]" % (o[1], o[5], "; ".join(cl(x) for x in o[2])))
         elif o[0] == "panic":
             ot.append("OPanic %d" % o[1])
         elif o[0] == "hang":
@@ -472,6 +475,33 @@ def hostile_dgram(r):
     else:
         sub = W.data_frag(EID_R, EID_W, r.choice([I64MAX, 1, 2]), 1, r.choice([0, 1, 2, 65535]), r.choice([0, 1, 8]), r.choice([0, 8, U32MAX]), bytes(8))
     return W.msg(pfx, sub)
+
+
+def forged_frags(r, sn, pfx=None, nsub=None):
+    """the consistent-forged-DATA_FRAG family: 1..3 DATA_FRAGs of one sample whose counts pass the
+    completeness test (sum of fragmentsInSubmessage == ceil(dataSize / fragmentSize), fragment 1
+    present, fragmentsInSubmessage <= payload bytes + 1) while fragmentSize / dataSize announce far
+    more than is carried; returns one datagram"""
+    pfx = pfx or PFX_S
+    nsub = nsub or r.choice([1, 1, 2, 3])
+    counts = [r.choice([1, 2, 7, 100, 1000, 4000]) for _ in range(nsub)]
+    if sum(len(W.keyed_payload(0, b"")) + c for c in counts) > 60000:
+        counts = [min(c, 1000) for c in counts]
+    total = sum(counts)
+    fsize = r.choice([65535, 65535, 65534, 32768, 4096, 9, 8, 1])
+    dsize = min(U32MAX, total * fsize - r.choice([0, 0, 1, fsize - 1]))
+    if dsize <= (total - 1) * fsize:
+        dsize = total * fsize
+    subs = []
+    start = 1
+    for c in counts:
+        n = r.choice([c, c, c - 1]) if c > 1 else c      # payload bytes: fragmentsInSubmessage <= n + 1
+        subs.append(W.data_frag(EID_R, EID_W, sn, start, c, fsize, dsize, bytes(r.getrandbits(8) for _ in range(max(0, n))),
+                                qos=[(0x70, bytes(16))] if r.random() < 0.3 else None))
+        start += c
+    if r.random() < 0.3:
+        r.shuffle(subs)
+    return W.msg(pfx, *subs)
 
 
 def guided(lim=6000):
@@ -685,7 +715,7 @@ def rknobs(r):
 
 
 def gen(r, tier):
-    ncases, per = {"quick": (60, 40), "search": (160, 40), "thorough": (800, 60)}[tier]
+    ncases, per = {"quick": (48, 40), "search": (160, 40), "thorough": (800, 60)}[tier]
     lim = LIM_MS[tier]
     cases = []
     cap = captured(dict(frag=64, a=2, m=2, j=1, rel=1))
@@ -710,6 +740,13 @@ def gen(r, tier):
                 d = clean_dgram(r)
             elif k < 0.44:
                 d = hostile_dgram(r)
+            elif k < 0.50:
+                # expected sequence number for a reliable reader (S wrote j samples, each forged sample
+                # that completes moves it on); anything at or above it for a best-effort reader
+                d = forged_frags(r, seq[EID_W] + 1 if knobs["rel"] == 1 or r.random() < 0.5 else seq[EID_W] + r.choice([2, 5, 1000]),
+                                 pfx=r.choice([PFX_S, PFX_S, PFX_V]))
+                if d[8:20] == PFX_S:
+                    seq[EID_W] += 1
             elif k < 0.78 and real:
                 d = mutate(r, r.choice(real_user if (real_user and r.random() < 0.6) else real))
                 if r.random() < 0.3:
@@ -746,6 +783,19 @@ def corpus():
           (dict(base, probe=1, rel=0, j=1), neighbours(), "neighbours-be"),
           (dict(base, probe=1), nack1, "nack-frag-1"),
           (dict(base, probe=1, frag=16), nack2, "nack-frag-2")]
+    # consistent forged fragments: little payload, extreme fragment_size / data_size (the reassembly
+    # buffer must be sized by what was received, not by what is announced)
+    rr = random.Random("C06-forged")
+    forged = [W.msg(S, W.data_frag(EID_R, EID_W, 1, 1, 1000, 65535, 65535000, bytes(1000))),
+              W.msg(S, W.data_frag(EID_R, EID_W, 2, 1, 1, 65535, 65535, b"a")),
+              W.msg(S, W.data_frag(EID_R, EID_W, 3, 1, 2, 65535, 131070, b"ab"), W.data_frag(EID_R, EID_W, 3, 3, 3, 65535, 327675, b"cde")),
+              W.msg(S, W.data_frag(EID_R, EID_W, 3, 3, 3, 65535, 327675, b"cde"), W.data_frag(EID_R, EID_W, 3, 1, 2, 65535, 327675, b"ab")),
+              W.msg(S, W.data_frag(EID_R, EID_W, 4, 1, 60000, 65535, 3932100000, bytes(59999)))]
+    cs.append((dict(base, probe=1), forged + [forged_frags(rr, 5 + i) for i in range(12)], "forged-frags-reliable"))
+    cs.append((dict(base, probe=1, rel=0, frag=64),
+               [W.msg(S, W.data_frag(EID_R, EID_W, 7, 1, 1000, 65535, 65535000, bytes(1000))),
+                W.msg(S, W.data_frag(EID_R, EID_W, 1000, 1, 4000, 65535, 262140000, bytes(3999)))] +
+               [forged_frags(rr, 2000 + 3 * i) for i in range(12)], "forged-frags-best-effort"))
     # the datagrams that panicked / hung / exhausted the participant before the repairs
     for c, ds in guided(base["lim"]):
         cs.append((dict(base, probe=1), ds, "former-class-%d" % c))
